@@ -152,8 +152,9 @@ theorem failed_assemble_leaves_nothing (U : Unsupported) (filter : Filter) (w : 
 
 /-- **Probing for support never changes process state**: `Supported()` issues strict mode with flags 1,
     which a kernel that has the
-    syscall answers EINVAL (and one that has not, ENOSYS): it reports exactly whether the syscall exists, and no
-    thread's state is touched. -/
+    syscall answers EINVAL (and one that has not, ENOSYS; one where a profile denies it, EPERM or EACCES —
+    every `World.refusal`): it reports exactly whether the syscall is usable, and no thread's state is
+    touched, whatever the errno of the refusal. -/
 theorem probe_pure (U : Unsupported) (w : World) :
     (Gen.supported U w).1 = w.seccompAvailable ∧ (Gen.supported U w).2.thr = w.thr ∧
       (Gen.supported U w).2.live = w.live := by
@@ -191,6 +192,21 @@ theorem tsync_refused_example :
 theorem success_example :
     (Gen.loadFilter noU { noNewPrivs := true, flag := 0, policy := .prog goodProg }
       { thr := fun _ => {}, live := [1], cur := 1, privileged := false }).1 = GoErr.nil := by
+  decide
+
+/-- a load that asks for a listener (SECCOMP_FILTER_FLAG_NEW_LISTENER): the kernel answers with a
+    positive descriptor and errno 0 — that is a success, not a thread-sync refusal -/
+theorem listener_example :
+    (Gen.loadFilter noU { noNewPrivs := true, flag := 8, policy := .prog goodProg }
+      { thr := fun _ => {}, live := [1], cur := 1, privileged := false }).1 = GoErr.nil ∧
+    (sysSeccomp 1 8 (some goodProg) { thr := fun _ => { nnp := true }, live := [1], cur := 1, privileged := false }).1 ≠ 0 := by
+  decide
+
+/-- the probe where a profile denies `seccomp(2)` with EPERM: false, and the thread keeps its state -/
+theorem probe_denied_example :
+    let w : World := { thr := fun _ => {}, live := [1], cur := 1, privileged := true,
+                       seccompAvailable := false, refusal := .eperm }
+    (Gen.supported noU w).1 = false ∧ ((Gen.supported noU w).2.thr 1).nnp = false := by
   decide
 
 end C09
